@@ -1057,7 +1057,12 @@ class Project:
         if copytree is None:
             copytree = shutil.copytree
         dst = self.open_job(job.statepoint())
-        existed = os.path.lexists(dst.path)
+        try:
+            # lexists() would read any error of the stat call as 'not there'.
+            os.lstat(dst.path)
+            existed = True
+        except FileNotFoundError:
+            existed = False
         try:
             copytree(job.path, dst.path)
         except OSError as error:
